@@ -437,7 +437,16 @@ def run_payload_case(ctx, case, env):
             setter(npy_blob(y))
             expect = 'BadChunk'
         elif p == 'wrongshape':
-            setter(npy_blob(wrong_shape(r, x)))
+            sv = case.get('shape_variant')
+            if sv == 'more_dims':
+                y = np.ascontiguousarray(np.stack([x, x], axis=-1))      # leading dimensions as promised, one more
+            elif sv == 'fewer_dims':
+                y = np.ascontiguousarray(x[..., 0])                       # leading dimensions as promised, one less
+            elif sv == 'zero_dims':
+                y = np.array(x.ravel()[0])
+            else:
+                y = wrong_shape(r, x)
+            setter(npy_blob(y))
             expect = 'BadChunk'
         elif p == 'object':
             setter(npy_blob(np.array([[1, 'a'], [None, 2]], dtype=object), allow_pickle=True))
@@ -1326,6 +1335,12 @@ def all_cases(ctx, scale=1):
         for be in ('npy', 's3'):
             for _ in range(ctx.q(1, 3)):
                 cases.append(gen_trunc_case(rng, be, lab))
+    # in every run whatever the seed: decodable chunks with another NUMBER of dimensions whose leading dimensions match
+    for be in ('s3', 'npy'):
+        for sv in ('more_dims', 'fewer_dims', 'zero_dims'):
+            for errors in (0, 'raise'):
+                cases.append(dict(kind='payload', backend=be, payload='wrongshape', shape_variant=sv, dtype='f4',
+                                  shape=[2, 3], arrseed=rng.getrandbits(32), errors=errors))
     cases += [gen_payload_case(rng) for _ in range(scale * ctx.q(160, 3000))]
     for w in ('npy-missing-dir', 'npy-perm', 'npy-dir-vanished', 's3-401', 's3-403', 's3-down', 's3-no-bucket'):
         cases.append(dict(kind='store', what=w))
